@@ -23,8 +23,9 @@ LABELSETS = {
 LAYERS = ["a", "b", "c"]
 # layer names are arbitrary hashable values: not necessarily mutually comparable, possibly falsy, possibly look-alikes
 LAYERSETS = [LAYERS, LAYERS, ["a", 1, "1"], [0, 1, 2], ["", "b", 7]]
-MD_KEYS = ["k", "col", "x"]
-MD_VALUES = [0, 1, 2, "r", "s", True, None, 1.5, [1, 2], [2, 1], {"z": 1}, "blue", 3, ["b", "a", "c"], "", False, [], {}, 0.0]
+MD_KEYS = ["k", "col", "x", "7"]  # "7": a key that is all digits is still a string
+MD_VALUES = [0, 1, 2, "r", "s", True, None, 1.5, [1, 2], [2, 1], {"z": 1}, "blue", 3, ["b", "a", "c"], "", False, [], {}, 0.0,
+             {"y": 2}, {"z": 2}, {"z": 1, "y": [1]}, {"2020": "a"}]
 CRIT_VALUES = [2, 3, "r", "s", "blue", 0, ""]
 
 OPS = {
@@ -631,6 +632,8 @@ def generate_history(rng, cfg, extra_propose=None, max_actors=4):
             if op is None:
                 continue
             op["a"] = a
+            if op["op"] == "add_edges" and kind in ("H", "D") and "ws" not in op and "mds" not in op and rng.random() < 0.2:
+                op["seq"] = rng.choice(["iter", "tuple"])  # a bare edge list may be any iterable too (e.g. zip(...))
             if op["op"] in ("add_nodes", "remove_nodes", "remove_edges") and rng.random() < 0.25:
                 op["seq"] = rng.choice(["iter", "iter", "tuple"])  # any iterable will do for these batches
             try:
@@ -705,7 +708,7 @@ class World:
         for j, (obj, model) in enumerate(self.actors):
             O.MUTED = set(op.get("_mute") or ())
             try:
-                obs = O.observe(self.kind, obj, self.U, self.probe_keys, flip=(len(self.log) + j) % 2, sizes=self.sizes)
+                obs = O.observe(self.kind, obj, self.U, self.probe_keys, flip=(len(self.log) + j) % 6, sizes=self.sizes)
             finally:
                 O.MUTED = set()
             mobs = model.observe(self.U, self.probe_keys, sizes=self.sizes)
